@@ -41,7 +41,9 @@ pub fn monitors_for(prop: &str) -> Vec<Box<dyn Monitor>> {
         "C07" => vec![Box::new(c07::C07::default())],
         "C08" => vec![Box::new(c08::C08)],
         "C09" => vec![Box::new(c09::C09::default())],
-        "C10" => vec![Box::new(c10::C10::default())],
+        // the denominator the contract actually USES is only observable through what it pays:
+        // C10 also runs the reward-share ledger of C07
+        "C10" => vec![Box::new(c10::C10::default()), Box::new(c07::C07::default())],
         "C11" => vec![Box::new(c11::C11)],
         "C12" => vec![Box::new(c12::C12)],
         "C13" => vec![Box::new(c13::C13::default())],
